@@ -9,7 +9,6 @@ import (
 	"golang.org/x/tools/go/ssa"
 )
 
-
 func cmdDiscover(args []string) int {
 	if len(args) < 1 {
 		usage()
